@@ -34,7 +34,7 @@ def as_seq(st: St, v: SV) -> SSeq:
     if isinstance(v, SSeq): return v
     if isinstance(v, SRef):
         c = st.cell(v.ref)
-        if isinstance(c, ListCell): return SSeq(c.elem, c.n, c.arr)
+        if isinstance(c, ListCell): return SSeq(c.elem, c.n, c.arr, setview=c.setview)
     raise Unsupported(f"not a sequence: {v}")
 
 
@@ -95,7 +95,7 @@ def contains(st: St, c: SV, x: SV):
             kt = key_term(cell.elem, x)
             return z3.BoolVal(False) if kt is None else cell.mem[kt]
         if isinstance(cell, ListCell):
-            return contains(st, SSeq(cell.elem, cell.n, cell.arr), x)
+            return contains(st, SSeq(cell.elem, cell.n, cell.arr, setview=cell.setview), x)
     if isinstance(c, SDictV):
         if c.kty == "str" and isinstance(x, SPrim) and x.ty == "Id":
             return z3.And(S.Id.is_StrId(x.t), c.dom[S.Id.s(x.t)])
@@ -111,6 +111,7 @@ def contains(st: St, c: SV, x: SV):
     if isinstance(c, SSeq):
         xt = key_term(c.elem, x)
         if xt is None: return z3.BoolVal(False)
+        if c.setview is not None: return c.setview[xt]
         i = S.fresh("i!in", z3.IntSort())
         return z3.Exists([i], z3.And(i >= 0, i < c.n, c.arr[i] == xt))
     if type(c).__name__ == "SIter" and c.kind == "range" and len(c.args) == 1:
@@ -144,6 +145,11 @@ def equal(st: St, a: SV, b: SV):
         return z3.BoolVal(False)
     if isinstance(a, STuple) and isinstance(b, STuple):
         if len(a.items) != len(b.items): return z3.BoolVal(False)
+        if isinstance(a.ty, tuple) and isinstance(b.ty, tuple):
+            try:
+                if S.sort_of(a.ty) == S.sort_of(b.ty): return term_of(a) == term_of(b)
+            except Exception:
+                pass
         return z3.And(*[equal(st, x, y) for x, y in zip(a.items, b.items)]) if a.items else z3.BoolVal(True)
     if getattr(a, "elem", 1) is None or getattr(b, "elem", 1) is None:     # () / [] of unknown type
         o = b if getattr(a, "elem", 1) is None else a
